@@ -134,6 +134,19 @@ def check_build(gene, rd, viol, labels):
     from aldy.gene import CNConfigType as T
 
     al = rd["alleles"]
+    # region lookup: every base of a region (first, last, middle) belongs to that region and to no other
+    for gi, regs_g in enumerate(gene.regions):
+        for rn, rg in regs_g.items():
+            if rg.end <= rg.start:
+                continue
+            for p_ in {rg.start, rg.end - 1, (rg.start + rg.end) // 2}:
+                got_r = gene.region_at(p_)
+                # (shipped CYP2D6: the gene's upstream region and the pseudogene's last region overlap - either owner is right)
+                owners = {(g2, r2) for g2, rs2 in enumerate(gene.regions) for r2, x2 in rs2.items() if x2.start <= p_ < x2.end}
+                if got_r not in owners:
+                    viol.append(V("region-lookup-differs-from-region-table", gene_index=gi, region=rn, pos=p_, offset=p_ - rg.start,
+                                  length=rg.end - rg.start, got=str(got_r), strand=gene.strand))
+                    break
     amb = any(any(x[0] == "?" for x in core) for _, core, _ in al.values())
     # configuration of every allele exists and lists its majors
     for an, a in gene.alleles.items():
